@@ -99,7 +99,7 @@ func genUploadCase(t *rapid.T) UploadCase {
 	for i := 0; i < n; i++ {
 		name := fmt.Sprintf("pkg_1.0-%d%s", i, rapid.SampledFrom([]string{".orig.tar.gz", ".debian.tar.xz", "_amd64.deb", ".dsc", ".tar.xz"}).Draw(t, "ext"))
 		if adversarial && rapid.IntRange(0, 1).Draw(t, "adv") == 0 {
-			name = rapid.SampledFrom([]string{"../outside/victim", "../outside/victim2", "../d1/planted", "sub/inner.tar.gz", "/outside/victim", "../../outside/victim", "sub/../../outside/victim", "./" + name, "..", ".", "/", "//", "/.", "sub/", "../"}).Draw(t, "advname")
+			name = rapid.SampledFrom([]string{"../outside/victim", "../outside/victim2", "../d1/planted", "sub/inner.tar.gz", "/outside/victim", "../../outside/victim", "sub/../../outside/victim", "./" + name, "..", ".", "/", "//", "/.", "sub/", "../", "../outside/real.dsc"}).Draw(t, "advname")
 		}
 		if !adversarial && rapid.IntRange(0, 19).Draw(t, "longname") == 0 {
 			// a legal name close to NAME_MAX (255)
@@ -126,10 +126,9 @@ func genUploadCase(t *rapid.T) UploadCase {
 	last := c.Ops[len(c.Ops)-1]
 	c.Fault = "none"
 	if rapid.IntRange(0, 2).Draw(t, "hasFault") != 0 {
-		opts := []string{"src-missing"}
-		if last.Kind != "move" { // renaming a directory works; only Copy and Remove stumble over one
-			opts = append(opts, "src-is-dir")
-		}
+		// a directory under a listed name: its content is not "in the control file's own directory",
+		// so it is no more to be moved or deleted than to be copied
+		opts := []string{"src-missing", "src-is-dir"}
 		if last.Kind != "remove" {
 			opts = append(opts, "dst-squatted", "dst-squatted", "dst-missing", "dst-is-file")
 		}
@@ -315,6 +314,7 @@ func checkUploadCase(c UploadCase, r *Recorder) error {
 	os.WriteFile(filepath.Join(root, "outside", "evil.dsc"), []byte(secret+"3"), 0o644)
 	os.WriteFile(filepath.Join(root, "outside", "evil.changes"), []byte(secret+"4"), 0o644)
 	os.WriteFile(filepath.Join(root, "d1", "planted"), []byte("PLANTED-IN-D1"), 0o644)
+	os.WriteFile(filepath.Join(root, "outside", "real.dsc"), []byte("Format: 3.0 (quilt)\nSource: elsewhere\nBinary: elsewhere\nArchitecture: any\nVersion: 1.0-1\nMaintainer: A B <a@b.c>\nFiles:\n 00000000000000000000000000000000 23 victim\n"), 0o644)
 	// referenced files: materialise those that resolve inside src
 	for _, f := range c.Files {
 		if f.Name == c.ctlName() {
@@ -355,6 +355,11 @@ func checkUploadCase(c UploadCase, r *Recorder) error {
 			return errf("ParseChangesFile(%q): %v", ctlText, err)
 		}
 		h, filenameOf = ch, func() string { return ch.Filename }
+		// the .dsc a .changes refers to lives next to it: a handle on one elsewhere would let
+		// Remove / Move loose on files outside the upload's directory
+		if d, err := ch.GetDSC(); err == nil && filepath.Dir(d.Filename) != filepath.Join(root, "src") {
+			return errf("GetDSC of a .changes listing %v returned a handle on %q, outside the upload's directory", upNames(c.Files), d.Filename)
+		}
 	}
 	outsideBefore := snapshotTree(filepath.Join(root, "outside"))
 
@@ -393,6 +398,9 @@ func checkUploadCase(c UploadCase, r *Recorder) error {
 			if !plainName(c.Files[c.FaultStep].Name) || c.Layout == "sha256-only" {
 				fault = "none" // faults are planted on plain names only, and on files the library has reason to touch
 			}
+		}
+		if fault == "src-is-dir" && op.Kind == "move" && c.FaultStep >= len(c.Files) {
+			fault = "none" // the control file's own path turned into a directory after parsing: renaming it is what was asked for
 		}
 		switch fault {
 		case "src-missing":
@@ -461,6 +469,11 @@ func checkUploadCase(c UploadCase, r *Recorder) error {
 			}
 		}
 		ctlInDst := filepath.Join(dstDir, c.ctlName())
+		if fault == "src-is-dir" {
+			if b, err := os.ReadFile(filepath.Join(locDir, stepName, "inner", "f")); err != nil || string(b) != "x" {
+				return errf("%s met a directory under the listed name %s (error: %v) and its content is gone from where it was (%v)", op.Kind, stepName, operr, err)
+			}
+		}
 		if fault != "none" {
 			// ---- a failing step: error, and the control file is not in the destination
 			if operr == nil {
